@@ -1,0 +1,22 @@
+//go:build verif
+
+package swagen31
+
+// Contracts for gvc (see /verif/DESIGN.md). Comment-only: this file adds no code to any build.
+
+// libopenapi's validator: assumed to report its verdict and nothing else.
+//@ extern github.com/pb33f/libopenapi-validator.NewValidator
+//@ ensures implies(result1 == nil, result0 != nil)
+//@ extern github.com/pb33f/libopenapi-validator.Validator.ValidateDocument
+//@ emits validatedSpec(result0)
+
+// Placeholders: the three emitters change the document (any heap) but cause no event.
+//@ func GenerateSecuritySpec trusted havocs
+//@ func GenerateModelsSpec trusted havocs
+//@ func GenerateControllersSpec trusted havocs
+
+//@ func GenerateSpec props C08,C14 havocs
+//@ requires config != nil
+//@ mayemit validatedSpec
+//@ ensures gate: implies(result1 == nil, evcount(validatedSpec) == old(evcount(validatedSpec))+1 && evlast(validatedSpec, 0))
+//@ ensures once: evcount(validatedSpec) <= old(evcount(validatedSpec))+1
